@@ -153,7 +153,7 @@ func waitFor(cond func() bool) bool {
 		}
 		runtime.Gosched()
 	}
-	end := time.Now().Add(5 * time.Second)
+	end := time.Now().Add(60 * time.Second) // generous: only a broken tie, never a verdict
 	for time.Now().Before(end) {
 		if cond() {
 			return true
